@@ -85,6 +85,13 @@ func newOSEnv(spec treeSpec, withZip bool, arg string) (*fsEnv, error) {
 			return nil, err
 		}
 	}
+	deep := src
+	for d := 0; d < spec.Deep; d++ {
+		deep = filepath.Join(deep, "zzz")
+		if err := w(filepath.Join(deep, "a.txt"), pattern(9+d, d)); err != nil {
+			return nil, err
+		}
+	}
 	if err := w(filepath.Join(src, "a", "b", "c.txt"), []byte("chain")); err != nil {
 		return nil, err
 	}
@@ -268,6 +275,7 @@ func runOS(ep *entryPoint, spec treeSpec, mode, arg string, k int64, flavour str
 		res.Diff = snapDiff(before, after)
 	}
 	res.Final = after
+	res.Result = append([]string{}, e.result...)
 	return res, nil
 }
 
